@@ -60,10 +60,11 @@ def check(ctx, prog, stats, samples):
         if r["impl"] != r["model"]:
             ctx.violation(f"implementation {r['impl_raw']} != model {r['model']}", case, kind="correspondence")
             # the tie is broken for this call: ask the documented rule directly whether the implementation is also wrong
-            if not any(d.get("body") in ("nextv",) for d in prog["defs"]) and not call.get("kwvals"):
+            if not any(d.get("body") in ("nextv",) for d in prog["defs"]):
                 vs0 = [dec_val(e, w) for e in call["vals"]]
-                exp0 = D.py_spec_dep(w, b, prog["defs"], vs0)
-                if exp0 is not None and exp0 != r["impl"] and not (exp0 == ["ambig"] and D.kf01_shape(w, b, prog["defs"], vs0, r["impl"])):
+                kw0 = {int(k): dec_val(e, w) for k, e in call.get("kwvals", {}).items()}
+                exp0 = D.py_spec_dep(w, b, prog["defs"], vs0, kw0)
+                if exp0 is not None and exp0 != r["impl"] and not (exp0 == ["ambig"] and D.kf01_shape(w, b, prog["defs"], vs0, r["impl"], kw0)):
                     ctx.violation(f"implementation {r['impl']} deviates from the documented rule {exp0}", case)
             continue
         # oracle 1: every entered method received instances of its annotations (C01 at the value level)
@@ -97,15 +98,22 @@ def check(ctx, prog, stats, samples):
                 if py_isinstance(v, b.ty(bounds[fid])) is not True:
                     ctx.violation(f"user condition {fid} was evaluated on {v!r}, which is not an instance of its bound", case)
         if r["impl"] == ["exc"]:
+            if r["impl_raw"] == ["exc", "CycleError"] and c06_hookvshook(prog):
+                # KF-23: two registered types of one slot each claim to be below the other (hook-vs-hook comparison,
+                # KF-06), the dependency graph of the type order gets a cycle; the model predicts the same failure
+                ctx.known_hit("KF-23", case)
+                stats["kf23"] += 1
+                continue
             ctx.violation(f"an internal exception escaped from the dispatcher: {r['impl_raw']}", case)
         # oracle 3: the documented rule (Python reading of docs/dependent.md and the property text)
-        if not any(d.get("body") in ("nextv",) for d in prog["defs"]) and not call.get("kwvals"):
+        if not any(d.get("body") in ("nextv",) for d in prog["defs"]):
             vs = [dec_val(e, w) for e in call["vals"]]
-            exp = D.py_spec_dep(w, b, prog["defs"], vs)
+            kws = {int(k): dec_val(e, w) for k, e in call.get("kwvals", {}).items()}
+            exp = D.py_spec_dep(w, b, prog["defs"], vs, kws)
             if exp is None:
                 stats["rule_silent"] += 1
             elif exp != r["impl"]:
-                if artifact or (exp == ["ambig"] and D.kf01_shape(w, b, prog["defs"], vs, r["impl"])):
+                if artifact or (exp == ["ambig"] and D.kf01_shape(w, b, prog["defs"], vs, r["impl"], kws)):
                     ctx.known_hit("KF-01", case)
                     stats["kf01"] += 1
                 else:
@@ -114,6 +122,11 @@ def check(ctx, prog, stats, samples):
                 stats["rule_agreed"] += 1
     if len(samples) < 2:
         samples.append({"defs": prog["defs"], "call": prog["calls"][0], "result": {k: res[0][k] for k in ("impl", "model", "entered")}})
+
+
+def c06_hookvshook(prog):
+    from .c06 import hookvshook
+    return hookvshook(prog)
 
 
 def check_next(ctx, stats):
@@ -186,9 +199,13 @@ def check_next(ctx, stats):
 def run(ctx):
     stats = collections.Counter()
     stats = {"evaluations": 0, "hist": collections.Counter(), "distinct": set(), "kf01": 0, "kf08": 0, "programs": 0,
-             "predicate_evaluations": 0, "rule_silent": 0, "rule_agreed": 0, "next_steps": 0, "method_mode_calls": 0}
+             "predicate_evaluations": 0, "rule_silent": 0, "rule_agreed": 0, "next_steps": 0, "method_mode_calls": 0, "directed_kw": 0, "kf23": 0}
     samples = []
     n = 80 if ctx.quick() else 4000
+    for prog in D.directed_kw_programs(ctx.rng):
+        check(ctx, prog, stats, samples)
+        stats["programs"] += 1
+        stats["directed_kw"] += 1
     for _ in range(n):
         prog = D.gen_dep_program(ctx.rng, steer=ctx.rng.choice([None, None, None, "literals", "mixed", "kwonly", "keyed_other"]))
         check(ctx, prog, stats, samples)
@@ -202,14 +219,14 @@ def run(ctx):
             "samples": samples, "programs": stats["programs"], "outcome_histogram": dict(stats["hist"]),
             "user_condition_evaluations_checked_against_bound": stats["predicate_evaluations"],
             "calls_agreeing_with_documented_rule": stats["rule_agreed"], "calls_where_rule_is_silent": stats["rule_silent"],
-            "deviations_attributed_to_KF-01": stats["kf01"], "call_next_steps_checked": stats["next_steps"], "calls_repeated_as_methods_of_a_class": stats["method_mode_calls"],
+            "deviations_attributed_to_KF-01": stats["kf01"], "cycle_errors_attributed_to_KF-23": stats["kf23"], "call_next_steps_checked": stats["next_steps"], "directed_programs_every_strategy_branch_with_keyword": stats["directed_kw"], "calls_repeated_as_methods_of_a_class": stats["method_mode_calls"],
             "call_next_deviations_attributed_to_KF-08": stats["kf08"], "traces_validated_against_impl": stats["evaluations"]}
 
 
 def replay(ctx, payload):
     """re-run the recorded program through the same comparisons; reproduced iff it raises a violation again"""
     stats = {"evaluations": 0, "hist": collections.Counter(), "distinct": set(), "kf01": 0, "kf08": 0, "programs": 0,
-             "predicate_evaluations": 0, "rule_silent": 0, "rule_agreed": 0, "next_steps": 0, "method_mode_calls": 0}
+             "predicate_evaluations": 0, "rule_silent": 0, "rule_agreed": 0, "next_steps": 0, "method_mode_calls": 0, "directed_kw": 0, "kf23": 0}
     before = len(ctx.violations)
     check(ctx, payload["case"], stats, [])
     return len(ctx.violations) > before
